@@ -22,6 +22,7 @@ structure Dep where
   name : Str
   ver : Option Str        -- explicit version, or none
   noRec : Bool            -- `-j`
+  external : Bool := false   -- `--external`: tracked but not managed by eups — skipped (`listExternalDependencies=False`)
 deriving Repr, DecidableEq
 
 structure Decl where
@@ -60,7 +61,7 @@ def Db.table (db : Db) (p : Prod) : List Dep :=
   match p.real, p.ver with
   | true, some v =>
     match db.decls.find? (fun d => d.name == p.name && d.ver == v) with
-    | some d => d.deps
+    | some d => d.deps.filter fun x => !x.external     -- both branches `continue` on these lines (`-n` is accepted for the product `eups` only)
     | none => []
   | _, _ => []
 
@@ -219,29 +220,76 @@ def uniqueLast (l : List Entry) : List Entry :=
       else go es (e.prod :: seen) (⟨e.prod, optional e.prod, e.depth⟩ :: out)
   go l.reverse [] []
 
+/-- what `getDependentProducts` does with the list `dependentProducts` once the first walk is over -/
+def finishListing (db : Db) (fuel : Nat) (top : Prod) (topological checkCycles : Bool) (out : List Entry) : Outcome :=
+  if !(topological || checkCycles) then .ok out
+  else
+    -- second pass with the versions found in the first
+    let req : Required := out.map fun e => (e.prod.name, e.prod.ver)
+    match listing db fuel req top with
+    | none => .outOfFuel
+    | some (_, st) =>
+      match Topo.topologicalSort (graphOf st) checkCycles with
+      | .outOfFuel => .outOfFuel
+      | .cycle => .cycle
+      | .ok ls =>
+        let asg := depthAssignments (ls.length + 1) 0 ls
+        let out := out.map fun e =>
+          match depthOfName asg e.prod.name with
+          | some d => { e with depth := some d }
+          | none => e
+        .ok (uniqueLast (sortStable entryLe out))
+
 def getDependentProducts (db : Db) (fuel : Nat) (top : Prod) (topological checkCycles : Bool) : Outcome :=
   -- `prodtbl = topProduct.getTable()`; TableFileNotFound is printed and the listing is empty
   if db.tableMissing top then .ok [] else
   match listing db fuel [] top with
   | none => .outOfFuel
-  | some (out, _) =>
-    if !(topological || checkCycles) then .ok out
-    else
-      -- second pass with the versions found in the first
-      let req : Required := out.map fun e => (e.prod.name, e.prod.ver)
-      match listing db fuel req top with
-      | none => .outOfFuel
-      | some (_, st) =>
-        match Topo.topologicalSort (graphOf st) checkCycles with
-        | .outOfFuel => .outOfFuel
-        | .cycle => .cycle
-        | .ok ls =>
-          let asg := depthAssignments (ls.length + 1) 0 ls
-          let out := out.map fun e =>
-            match depthOfName asg e.prod.name with
-            | some d => { e with depth := some d }
-            | none => e
-          .ok (uniqueLast (sortStable entryLe out))
+  | some (out, _) => finishListing db fuel top topological checkCycles out
+
+/-- `setup=True` ("get the version that's actually setup"): every listed product is replaced by the version of it
+that is set up (`findSetupProduct`: the declared version the environment names), and dropped when none is
+(`shouldRaise=False`: a message for a required one) -/
+def adjustSetup (db : Db) (setup : List (Str × Str)) (out : List Entry) : List Entry :=
+  out.filterMap fun e =>
+    match setup.lookup e.prod.name with
+    | some v => if db.declared e.prod.name v then some { e with prod := ⟨e.prod.name, some v, true⟩ } else none
+    | none => none
+
+/-- `getDependentProducts(topProduct, setup=True, ...)` as `eups list --dependencies --setup` calls it -/
+def getDependentProductsSetup (db : Db) (fuel : Nat) (top : Prod) (setup : List (Str × Str))
+    (topological checkCycles : Bool) : Outcome :=
+  if db.tableMissing top then .ok [] else
+  match listing db fuel [] top with
+  | none => .outOfFuel
+  | some (out, _) => finishListing db fuel top topological checkCycles (adjustSetup db setup out)
+
+/-! ### the build-order consumer: `Distrib._createDeps` (python/eups/distrib/Distrib.py l.367-480) -/
+
+/-- `dependencies.sort(key=byDepth)` with `byDepth(a) = -a[2]`: deepest first, ties in listing order -/
+def buildOrder (out : List Entry) : List Entry :=
+  sortStable (fun a b => decide (b.depth.getD 0 ≤ a.depth.getD 0)) out
+
+inductive BuildOutcome where
+  | ok (l : List (Str × Option Str × Bool))     -- (product, version, optional) in installation order
+  | notFound                                   -- a required dependency cannot be resolved
+  | undetermined                               -- "Unable to determine dependencies" (the listing raised)
+deriving Repr, DecidableEq
+
+/-- the manifest `_createDeps` builds: the topological listing sorted by decreasing depth, every entry looked up
+again (`findProductFromVRO(name, version)`; an optional one that is not found is dropped, a required one raises),
+the top product rolled to the end -/
+def createDeps (db : Db) (fuel : Nat) (top : Prod) : BuildOutcome :=
+  match getDependentProducts db fuel top true false with
+  | .ok l =>
+    let rec go : List Entry → List (Str × Option Str × Bool) → BuildOutcome
+      | [], acc => .ok (acc ++ [(top.name, top.ver, false)])
+      | e :: es, acc =>
+        match db.find e.prod.name e.prod.ver with
+        | some p => go es (acc ++ [(p.name, p.ver, e.optional)])
+        | none => if e.optional then go es acc else .notFound
+    go (buildOrder l) []
+  | _ => .undetermined
 
 /-! ### `uses` -/
 
